@@ -512,6 +512,22 @@ pub fn items(prop: &str, tier: &str) -> Vec<Item> {
                     }
                 }
             }
+            // procfs lookups through a handle that SEES over-mounts (plain open of /proc) while one mount / umount is placed at every
+            // procfs syscall boundary: the EXDEV and retry paths of the procfs resolvers obey the same rules
+            for b in ["K", "E"] {
+                let mut ops = vec![
+                    Op::new("proc_open").procfs("new").base("self").path("status").flags(O_RDONLY | O_NONBLOCK),
+                    Op::new("proc_open").procfs("new").base("thread-self").path("status").flags(O_PATH),
+                    Op::new("proc_readlink").procfs("new").base("self").path("fd/40"),
+                ];
+                if th { ops.push(Op::new("proc_open").procfs("new").base("root").path("self/status").flags(O_RDONLY | O_NONBLOCK)); ops.push(Op::new("proc_open_follow").procfs("new").base("self").path("fd/40").flags(O_RDONLY)); ops.push(Op::new("proc_open").capi().base("self").path("status").flags(O_RDONLY | O_NOFOLLOW)); }
+                for op in ops {
+                    let sc = Scenario { name: format!("overmounted:{}/{}", b, op.brief()), backend: b.into(), op, path: "plain-open".into() };
+                    let mut it = item(sc, Plan::Attack { bound: 1, full: th }, if th { 20_000 } else { 2_500 });
+                    it.mount_api = 2;
+                    v.push(it);
+                }
+            }
             // a seccomp profile that predates openat2 and the new mount API (they answer EPERM): cold, so that the probes run
             {
                 let p: Vec<Scenario> = all.iter().filter(|s| s.backend == "E").step_by(if th { 2 } else { 7 }).cloned().map(|mut s| { s.backend = "P".into(); s.name = s.name.replacen("E/", "P/", 1); s }).collect();
@@ -1138,14 +1154,15 @@ pub fn run_item(prop: &str, tier: &str, idx: usize, only: Option<&Value>) -> MRe
     let mut states: BTreeSet<u64> = BTreeSet::new();
     let mut nontrivial: BTreeSet<u64> = BTreeSet::new();
     let mut counts: BTreeMap<String, u64> = BTreeMap::new();
-    let prop_is_c06 = prop == "C06";
+    // racing over-mounts of the caller's /proc as the attacker alphabet: all of C06's sysmc items, and C05's "overmounted" items
+    let prop_is_c06 = prop == "C06" || it.scen.name.starts_with("overmounted:");
     if prop_is_c06 || it.scripted.is_some() { crate::mountmc::build_sources()?; }
 
     // one complete execution of `scen` under `ch`; returns the violations found
     let mut one = |scen: &Scenario, ch: &mut Chooser, res: &mut ItemResult, confirm: bool, counts: &mut BTreeMap<String, u64>| -> MResult<(Vec<(String, String)>, String)> {
         let w = fresh_world()?;
         let mode = match &it.plan {
-            Plan::Attack { full, .. } if prop == "C06" => Mode::Attack(mount_mutations(*full)),
+            Plan::Attack { full, .. } if prop_is_c06 => Mode::Attack(mount_mutations(*full)),
             Plan::Attack { .. } if it.root_move => Mode::Attack(mutations_for(&scen.path, false).into_iter().filter(|m| m.name.starts_with("move(") || m.name.starts_with("plant(")).collect()),
             Plan::Attack { full, bound } => {
                 let mut m = mutations_for(&scen.path, *full);
